@@ -88,7 +88,8 @@ class FlowMixin:
                         if tag[0] == "const":
                             items.append(Const(tag[1][j]))
                         else:
-                            items.append(Sym(("byteof", repr(tag)[:80], j), "int", rng=(0, 255)))
+                            from .interp_stmt import byte_name
+                            items.append(Sym(byte_name(tag, j), "int", rng=(0, 255)))
                         k += 1
                 return items
         if isinstance(v, Sym) and v.ty == "range":
